@@ -939,6 +939,9 @@ LEVEL_NOTE = ('Trusts NumPy float64 arithmetic and the harness references (self-
               'single examples are evaluated under jax.disable_jit, the jitted/vmapped path is covered by C05.')
 
 
+
 if __name__ == '__main__':
   from vmon import xproc as _xproc
   _xproc.child_main(_xproc.family_handler(__name__))
+
+TECHNIQUE += '; cross-entropy metrics in a fresh interpreter under JAX_ENABLE_X64=1 at float64 accuracy; half-precision long sequences; narrow label dtypes'
